@@ -15,9 +15,13 @@ wire format
           {"op":"branch","keys":[[level, key],...]}                                 `_is_branch_key` of the parser at `level`
           {"op":"decl","style":S,"key":k,"fields":[{"name","ty","def"?}, ...]}     C07: action table of one style
           {"op":"parse7", ...}                                                      C07: see `parse7`
+          {"op":"declR","style":S,"key":k,"D":dmap,"fields":[fieldR,...]}           C07, recursive field lists with declared defaults
+          {"op":"parseR", ... ,"items":[{"t":"opt","p":[..],"plus":b,"v":text}|{"t":"wholeOpt"|"wholeEnv","p":[..],"v":value}|{"t":"tree","v":dict}]}
+  fieldR: {"name","ty","def"?,"stated"?} | {"name","declared":dmap,"sub":[fieldR,...]};  dmap: [[k,{"v":value}] | [k,{"m":dmap}], ...]
 -/
 import Lean.Data.Json
 import Jap.Core.Validate
+import Jap.Core.Styles
 
 open Lean Jap.Validate
 
@@ -176,6 +180,70 @@ def tableToJson (t : Table) : Json :=
     ("required", .arr (t.required.map Json.str).toArray),
     ("whole", match t.whole with | some k => .str k | none => .null)]
 
+partial def dmapOfJson (xs : List Json) : Except String DMap :=
+  xs.mapM fun (x : Json) => match x with
+    | .arr #[.str k, d] =>
+      match d.getObjVal? "m" with
+      | .ok (.arr m) => do
+        let m' ← dmapOfJson m.toList
+        pure (k, DVal.map m')
+      | _ =>
+        match d.getObjVal? "v" with
+        | .ok v => do
+          let v' ← valOfJson v
+          pure (k, DVal.val v')
+        | .error _ => .error "bad dval"
+    | _ => .error "bad dmap entry"
+
+partial def fieldsROfJson (xs : List Json) : Except String (List FieldR) :=
+  xs.mapM fun (x : Json) => do
+    match x.getObjVal? "sub" with
+    | .ok (.arr fs) =>
+      let fs' ← fieldsROfJson fs.toList
+      let d ← dmapOfJson (jArr x "declared")
+      pure (FieldR.sub (jStr x "name") d fs')
+    | _ =>
+      let ty ← tyOfString (jStr x "ty")
+      let d ← match x.getObjVal? "def" with
+        | .ok v => do
+          let v' ← valOfJson v
+          pure (some v')
+        | .error _ => pure none
+      let st ← match x.getObjVal? "stated" with
+        | .ok v => do
+          let v' ← valOfJson v
+          pure (some v')
+        | .error _ => pure none
+      pure (FieldR.leaf (jStr x "name") ty d st)
+
+def pathOfJson (j : Json) (k : String) : List String :=
+  (jArr j k).filterMap fun (x : Json) => match x with
+    | .str s => some s
+    | _ => none
+
+def itemROfJson (x : Json) : Except String ItemR := do
+  let v ← match x.getObjVal? "v" with
+    | .ok v => valOfJson v
+    | .error _ => pure Val.null
+  match jStr x "t" with
+  | "opt" => pure (.opt (pathOfJson x "p") (jBool x "plus") v)
+  | "wholeOpt" => pure (.wholeOpt (pathOfJson x "p") v)
+  | "wholeEnv" => pure (.wholeEnv (pathOfJson x "p") v)
+  | "tree" => match v with
+    | .dict kvs => pure (.tree kvs)
+    | _ => .error "tree item is not a dict"
+  | t => .error ("bad item " ++ t)
+
+def dotted (p : List String) : String := ".".intercalate p
+
+def tableRToJson (t : TableR) : Json :=
+  Json.mkObj [
+    ("entries", .arr (t.entries.map fun e => Json.mkObj [("dest", .str (dotted e.path)),
+      ("opts", .arr ((dotted e.path :: (if e.plus then [dotted e.path ++ "+"] else [])).map Json.str).toArray),
+      ("ty", .str (tyToString e.ty)), ("def", valToJson e.default)]).toArray),
+    ("required", .arr (t.required.map fun p => Json.str (dotted p)).toArray),
+    ("wholes", .arr (t.wholes.map fun p => Json.str (dotted p)).toArray)]
+
 structure St where
   fields : Fields := []
   load : List (String × Val) := []
@@ -244,6 +312,28 @@ def step (st : St) (j : Json) : Json × St :=
     | .error e, _, _ => (Json.mkObj [("bad-style", .str e)], st)
     | _, .error e, _ => (Json.mkObj [("bad-fields", .str e)], st)
     | _, _, .error e => (Json.mkObj [("bad-items", .str e)], st)
+  | "declR" =>
+    match styleOfString (jStr j "style"), fieldsROfJson (jArr j "fields"), dmapOfJson (jArr j "D") with
+    | .ok sty, .ok fs, .ok d => (tableRToJson (declR sty (jStr j "key") d fs), st)
+    | .error e, _, _ => (Json.mkObj [("bad-style", .str e)], st)
+    | _, .error e, _ => (Json.mkObj [("bad-fields", .str e)], st)
+    | _, _, .error e => (Json.mkObj [("bad-D", .str e)], st)
+  | "parseR" =>
+    match styleOfString (jStr j "style"), fieldsROfJson (jArr j "fields"), dmapOfJson (jArr j "D"), (jArr j "items").mapM itemROfJson with
+    | .ok sty, .ok fs, .ok d, .ok items =>
+      let tbl := (jArr j "load").filterMap (fun (x : Json) => match x with
+        | .arr #[.str k, v] => match valOfJson v with
+          | .ok v' => some (k, v')
+          | .error _ => none
+        | _ => none)
+      let key := jStr j "key"
+      match parseR (mkLoad tbl) (declR sty key d fs) (specR (sty != .dotted) key fs) items with
+      | .ok cfg => (Json.mkObj [("r", "ok"), ("cfg", valToJson (.dict cfg))], st)
+      | .error e => (errToJson e, st)
+    | .error e, _, _, _ => (Json.mkObj [("bad-style", .str e)], st)
+    | _, .error e, _, _ => (Json.mkObj [("bad-fields", .str e)], st)
+    | _, _, .error e, _ => (Json.mkObj [("bad-D", .str e)], st)
+    | _, _, _, .error e => (Json.mkObj [("bad-items", .str e)], st)
   | op => (Json.mkObj [("bad-op", .str op)], st)
 
 partial def loop (h : IO.FS.Stream) (out : IO.FS.Stream) (st : St) : IO Unit := do
